@@ -547,6 +547,20 @@ example : exCyc.Reaches 0 0 :=
 example : view (execute exCyc (fun _ => some (fun _ => .ret [(0, .raw 1)])) [] true) =
     (some .cannotResolve, [], [], []) := by decide
 
+/-- a cycle {0, 1} fed from outside by module 2: module 2 runs, the modules on the cycle are never invoked, the run
+    raises "cannot resolve" (the cycle case of `c16_unschedulable_raises_no_loop` with a non-empty invocation log) -/
+private def exCyc2 : Diagram :=
+  Diagram.build [.addModule ⟨0, [(0, ⟨0, 0⟩), (1, ⟨0, 0⟩)], [(0, ⟨0, 0⟩)], []⟩,
+    .addModule ⟨1, [(0, ⟨0, 0⟩)], [(0, ⟨0, 0⟩)], []⟩, .addModule ⟨2, [], [(0, ⟨0, 0⟩)], []⟩,
+    .connect 0 0 1 0, .connect 1 0 0 0, .connect 2 0 0 1]
+
+example : exCyc2.Reaches 0 0 ∧ exCyc2.Reaches 1 1 :=
+  ⟨.step ⟨0, 0, 1, 0⟩ (by decide) (.wire ⟨1, 0, 0, 0⟩ (by decide)),
+   .step ⟨1, 0, 0, 0⟩ (by decide) (.wire ⟨0, 0, 1, 0⟩ (by decide))⟩
+
+example : view (execute exCyc2 (fun _ => some (fun _ => .ret [(0, .raw 1)])) [] true) =
+    (some .cannotResolve, [], [], [2]) := by decide
+
 /-- a wire that bypassed `connect` and violates integrity is stopped by `enforce_static_checks` (the guard of
     `c16_delivered_values_typed` in its first form) and let through without it -/
 private def exRaw : Diagram :=
